@@ -90,6 +90,10 @@ EXPLANATION += (
     ' Round 11: the declared normalization reaches the election exactly as configured (R-FWD/config-as-requested); row totals are accumulated in a widened type (R-CAP/row-total-accumulator).'
 )
 
+EXPLANATION += (
+    ' Round 13: rounding quotients count whole windows only (R-TILE/whole-axis).'
+)
+
 RULE_TEXT = (
     "one obligation per dominance / typestate / provenance relation named "
     "above")
